@@ -27,10 +27,13 @@ import (
 const unknownPoly = 99
 
 type polys struct {
-	vec map[string][][]string // miner id -> known key vectors (hex), in order
+	vec map[string][][]string        // miner id -> known key vectors (hex), in order
+	pks map[string][][]bls.PublicKey // the same, parsed
 }
 
-func newPolys() *polys { return &polys{vec: map[string][][]string{}} }
+func newPolys() *polys {
+	return &polys{vec: map[string][][]string{}, pks: map[string][][]bls.PublicKey{}}
+}
 
 func sameVec(a, b []string) bool {
 	if len(a) != len(b) {
@@ -59,6 +62,7 @@ func (p *polys) learn(id string, g *bls.DKG) int {
 		}
 	}
 	p.vec[id] = append(p.vec[id], v)
+	p.pks[id] = append(p.pks[id], g.GetMPKs())
 	return len(p.vec[id])
 }
 
@@ -84,11 +88,7 @@ func (p *polys) ofShare(from, to, share string) int {
 	if err := sk.SetHexString(share); err != nil {
 		return unknownPoly
 	}
-	for i, k := range p.vec[from] {
-		pks, err := bls.ConvertStringToMpk(k)
-		if err != nil {
-			continue
-		}
+	for i, pks := range p.pks[from] {
 		if bls.ValidateShare(pks, sk, bls.ComputeIDdkg(to)) {
 			return i + 1
 		}
@@ -192,7 +192,10 @@ func (d *drv) scState(b *block.Block) (rec.M, *minersc.VerifGovPhase) {
 		"vc": d.rel(g.ViewChange), "all": n(g.AllMiners), "shs": n(g.AllSharders), "prev_m": prevM, "prev_s": prevS}
 	// contents
 	mpks := block.NewMpks()
-	if err := sctx.GetTrieNode(minersc.MinersMPKKey, mpks); err != nil && err != util.ErrValueNotPresent {
+	mpkp := true
+	if err := sctx.GetTrieNode(minersc.MinersMPKKey, mpks); err == util.ErrValueNotPresent {
+		mpkp = false
+	} else if err != nil {
 		rec.Fatal("vcclient: mpks: %v", err)
 	}
 	gsos := block.NewGroupSharesOrSigns()
@@ -208,7 +211,7 @@ func (d *drv) scState(b *block.Block) (rec.M, *minersc.VerifGovPhase) {
 	default:
 		rec.Fatal("vcclient: magic block: %v", err)
 	}
-	return rec.M{"st": S, "mpkv": d.mpkPairs(mpks), "sosv": d.gsosPairs(gsos), "mb": mbrec}, g
+	return rec.M{"st": S, "mpkv": d.mpkPairs(mpks), "mpkp": mpkp, "sosv": d.gsosPairs(gsos), "mb": mbrec}, g
 }
 
 func (d *drv) mbRec(mb *block.MagicBlock) rec.M {
